@@ -144,10 +144,11 @@ def _decide(members, non_members, cs_strings, budget, confirm, tag, zcache=None)
         res["verdict"], res["solver"] = r, "z3-5.1(api)"
 
     def alternatives():
-        yield "cvc5-1.0.3", "in_re", lambda: R.emptiness_smt2(members, non_members, alpha=alpha)
         if cs_strings is not None:
             # case-sensitive ContainsAny written with str.contains instead of a regex complement
+            # (cvc5 decides this form in ~0.05 s where the complement form occasionally times out)
             yield "cvc5-1.0.3", "contains", lambda: R.emptiness_smt2(members, non_members[1:], not_containing=cs_strings, alpha=alpha)
+        yield "cvc5-1.0.3", "in_re", lambda: R.emptiness_smt2(members, non_members, alpha=alpha)
         yield "z3-4.8.12", "inter", lambda: R.emptiness_smt2([R.mk_and(list(members) + [R.mk_not(m) for m in non_members])], alpha=alpha)
 
     if res["verdict"] == "unknown":
